@@ -125,3 +125,52 @@ func TestPyBudgetAndUniqueness(t *testing.T) {
 		t.Fatalf("only %d of 300 'large' modules exceed the lexer budget", large)
 	}
 }
+
+// The same-name dimension: after sharing, both files still parse, each file keeps unique names of its own, and
+// the shared names really occur in both.
+func TestShareNames(t *testing.T) {
+	sharedGo, sharedPy := 0, 0
+	for i := 0; i < 300; i++ {
+		r := run.CaseRand("C20", 9, i)
+		a, b := GenGo(r.Fork(), "cmd/server/a.go", 0), GenGo(r.Fork(), "cmd/worker/b.go", 1000)
+		names := ShareGoNames(r.Fork(), a, b, i%2 == 0)
+		for _, f := range []*GoFile{a, b} {
+			if _, err := parser.ParseFile(token.NewFileSet(), f.File, f.Text, 0); err != nil {
+				t.Fatalf("case %d: %v\n%s", i, err, f.Text)
+			}
+			seen := map[string]bool{}
+			for _, s := range f.Structs() {
+				if seen[s.Name] {
+					t.Fatalf("case %d: %s twice in one file", i, s.Name)
+				}
+				seen[s.Name] = true
+				for _, me := range s.Methods {
+					if me.Recv.Type != s.Name {
+						t.Fatalf("case %d: receiver of %s not renamed", i, me.Name)
+					}
+				}
+			}
+		}
+		for _, n := range names {
+			sharedGo++
+			word := n[strings.LastIndex(n, " ")+1:]
+			if !strings.Contains(a.Text, word) || !strings.Contains(b.Text, word) {
+				t.Fatalf("case %d: shared name %s not in both files", i, n)
+			}
+		}
+		pa, pb := GenPy(r.Fork(), "a.py", false, 0), GenPy(r.Fork(), "b.py", false, 1000)
+		for _, n := range SharePyNames(r.Fork(), pa, pb) {
+			sharedPy++
+			word := n[strings.LastIndex(n, " ")+1:]
+			if !strings.Contains(pa.Text, word) || !strings.Contains(pb.Text, word) {
+				t.Fatalf("case %d: shared name %s not in both modules", i, n)
+			}
+		}
+		if pa.LexEvents > PySmallBudget || pb.LexEvents > PySmallBudget {
+			t.Fatalf("case %d: sharing changed the lexer budget", i)
+		}
+	}
+	if sharedGo < 200 || sharedPy < 100 {
+		t.Fatalf("too few shared names: go %d, py %d", sharedGo, sharedPy)
+	}
+}
